@@ -191,6 +191,23 @@ class LocMap:
 
                 yield pos
 
+    @staticmethod
+    def bound_offset_slice(key: slice, offset: int, size: int) -> slice:
+        '''Given an iloc slice already shifted by ``offset``, replace an open (None) start or stop with the bounds of the ``size`` positions found at ``offset``, so that a selection within one level of an IndexHierarchy does not extend into its siblings.
+        '''
+        start, stop, step = key.start, key.stop, key.step
+        if step is None or step > 0:
+            if start is None:
+                start = offset
+            if stop is None:
+                stop = offset + size
+        else:
+            if start is None:
+                start = offset + size - 1
+            if stop is None and offset > 0:
+                stop = offset - 1
+        return slice(start, stop, step)
+
     @classmethod
     def loc_to_iloc(cls, *,
             label_to_pos: tp.Dict[tp.Hashable, int],
@@ -218,7 +235,7 @@ class LocMap:
                 # when offset is defined (even if it is zero), null slice is not sufficiently specific; need to convert to an explicit slice relative to the offset
                 return slice(offset, len(positions) + offset) #type: ignore
             try:
-                return slice(*cls.map_slice_args(
+                key_iloc = slice(*cls.map_slice_args(
                         label_to_pos.get, #type: ignore
                         key,
                         labels,
@@ -226,6 +243,9 @@ class LocMap:
                         )
             except LocEmpty:
                 return EMPTY_SLICE
+            if offset_apply:
+                return cls.bound_offset_slice(key_iloc, offset, len(positions)) #type: ignore
+            return key_iloc
 
         if isinstance(key, np.datetime64):
             # convert this to the target representation, do a Boolean selection
@@ -939,7 +959,10 @@ class Index(IndexBase):
             if key.__class__ is slice:
                 if key == NULL_SLICE:
                     return slice(offset, self.__len__() + offset)
-                return slice_to_inclusive_slice(key, offset) #type: ignore
+                return LocMap.bound_offset_slice(
+                        slice_to_inclusive_slice(key, offset), #type: ignore
+                        offset,
+                        self.__len__())
 
             if key.__class__ is np.ndarray:
                 # PERF: isolate for usage of _positions
